@@ -101,6 +101,9 @@ def _mk_enc(M):
             K.prove(f'binary[{sig}]', p.pc, z3.Or(tonum(d.elem((s * M + j,))) == 0, tonum(d.elem((s * M + j,))) == 1), words='output is a valid binary sequence')
             bad = purity_violations(p, o)
             (K.fail if bad else K.ok)(f'frame[{sig}]', '; '.join(bad) if bad else 'input untouched, fresh output')
+            for q, (pc, cond, txt, where) in enumerate(p.ex.side):
+                if 'scatter' in txt or 'fancy index' in txt:
+                    K.prove(f'index_defined.{q}[{sig}]', pc, cond, replay=rep, small=small, words='every ON-slot index written by the encoder stays inside its own block and inside the output (' + txt + ' never happens)')
 
         # round trip: decode(encode(b)) = b[: floor(n/k)*k]
         i = z3.Int('i')
@@ -375,6 +378,16 @@ def bounded(K):
                             if sum(bo) != 1 or (sum(bi) == 1 and bo != bi) or (sum(bi) > 1 and any(o > i for o, i in zip(bo, bi))):
                                 bad.append({'fn': 'HDD', 'M': M, 'pattern': pat, 'out': out})
                                 break
+        rng = np.random.default_rng(1)
+        for M in ORDERS:
+            k = M.bit_length() - 1
+            for rep_ in range(3):
+                bits = [int(x) for x in rng.integers(0, 2, k * 40 + rep_)]
+                n += 1
+                seen.add(('long', M, rep_))
+                enc = list(map(int, ppm.PPM_ENCODER(bits, M).data))
+                if enc != ref_encode(bits, M) or list(map(int, ppm.PPM_DECODER(enc, M).data)) != bits[:len(bits) // k * k]:
+                    bad.append({'fn': 'PPM_ENCODER/DECODER long random sequence', 'M': M, 'len': len(bits)})
         gv(sps=8, R=1e9)
         rng = np.random.default_rng(0)
         for M in (2, 4, 16):
